@@ -1,4 +1,8 @@
 import PtnModel.Proofs.HamMolChains
+import PtnModel.Proofs.HamMolNodes
+import PtnModel.Proofs.HamMolTerms
+import PtnModel.Proofs.HamSpinChains
+import PtnModel.Proofs.HamMolGraphWords
 /-!
 # Property C07 (molecular Hamiltonian MPOs are exact for every orbital count, both build paths)
 
@@ -21,6 +25,20 @@ Proved here, for every number of orbitals `L ≥ 0` and arbitrary coefficient te
   `OpChain` constructor accepts the operator / charge lists, and the chain satisfies the guards of `from_opchains`;
 * `molecular_chains_wf` -- hence the whole enumeration of the bond-optimized spinless construction returns and every chain is
   well formed; this is what makes `from_opchains` applicable for every `L`, including `L = 1`;
+* `to_spin_opchain_wf`, `spin_molecular_chains_wf` -- spin-orbital basis: `SpinOperatorConverter.to_spin_opchain` succeeds on every
+  Jordan-Wigner shaped chain with balanced spin (no `KeyError` for `(I, Z)` / `(Z, I)`, final charge assertion holds), all chains of
+  the enumeration have this shape (`get_vint_coeff` only lets spin-conserving index tuples pass), hence the whole bond-optimized
+  spin-orbital enumeration returns well-formed chains on `L` sites for every `L`;
+* `optimized_graph_words` -- combined with C05's `from_opchains_sem`: whenever a bond-optimized construction returns (`L ≥ 1`), the graph
+  handed to `MPO.from_opgraph` denotes exactly the sum of the identity-padded chains of the enumeration (spinless and spin-orbital);
+* `explicit_ids_distinct`, `explicit_nodes_accepted` -- explicit constructions, every `L`: the running counter `nid_next` hands every
+  node of `MolecularOpGraphNodes` / `SpinMolecularOpGraphNodes` a different id (the ids of the graph's node list are a
+  rearrangement of `0 .. N-1`), the terminal nodes `identity_l[0]`, `identity_r[L]` exist for `L ≥ 1`, and therefore the `OpGraph`
+  constructor in `generate_graph` accepts the node list;
+* `explicit_lookups_defined` -- spinless explicit construction, every `L ≥ 4` (exactly the documented domain): for every hopping term and
+  every interaction term `_molecular_hamiltonian_graph_add_term` only consults node-table entries that exist (`nodes.get(...)`,
+  `nodes_l[...]`, `identity_l/r[...]`), its internal assertions hold, and the call is a single `add_connect_edge` of an edge with the
+  next free id `max(graph.edges) + 1`;
 * `molecular_mpo_block_sparse` -- whenever any of the four constructions returns, every tensor is block sparse under the physical
   charges (`[0, 1]` resp. the encoded `(N, S)` pairs) and the bond charges.
 -/
@@ -59,6 +77,27 @@ example (c : Consts Int) : molChains c [[5]] [[[[9]]]] = .ok [⟨[2], [0, 0], 5,
 example (c : Consts Int) : (molChains c [[1, 2], [3, 4]] [[[[0, 0], [0, 0]], [[0, 0], [0, 0]]], [[[0, 0], [0, 0]], [[0, 0], [0, 0]]]]).toOption.map List.length
     = some 5 := rfl
 
+/-- **`to_spin_opchain` succeeds** on every chain on `2 L` modes that satisfies the guards of `from_opchains`, whose charges follow its
+operators with `Z` only at odd and `I` only at even charge (`JW`), and whose spin-up and spin-down particle-number changes
+cancel separately (`altCharge = 0`); the converted chain satisfies the guards on `L` sites. -/
+theorem to_spin_opchain_wf (L : Int) (c : OpChain κ) (tail : List Int) (h : SpinReady L c tail) :
+    ∃ sc, toSpinOpchain c = .ok sc ∧ ChainWF L sc :=
+  toSpinOpchain_wf L c tail h
+
+/-- non-vacuity: the hopping chain `a†_1 Z_2 a_3` between the spin-down modes of sites 0 and 1 becomes `(I C)_0 (Z A)_1` with the
+encoded charges `(1 << 16) - 1` in between -/
+example : toSpinOpchain (⟨[1, 3, -1], [0, 1, 1, 0], (7 : Int), 1⟩ : OpChain Int) = .ok ⟨[1, 20], [0, 65535, 0], 7, 0⟩ := rfl
+
+/-- **The bond-optimized spin-orbital enumeration is well formed for every `L`** (all coefficient tensors). -/
+theorem spin_molecular_chains_wf (c : Consts κ) (tkin : List (List κ)) (vint : List (List (List (List κ)))) :
+    ∃ chains, spinMolChains c tkin vint = .ok chains ∧ ∀ ch ∈ chains, ChainWF (tkin.length : Int) ch :=
+  spinMolChains_wf c tkin vint
+
+/-- non-vacuity: one spatial orbital: two diagonal hopping chains `N I`, `I N` and the single interaction chain `N N` -/
+example : (spinMolChains (⟨0, fun _ => 0⟩ : Consts Int) [[5]] [[[[9]]]]).toOption.map
+    (fun l => l.map fun ch => (ch.oids, ch.qnums, ch.istart)) = some [([14], [0, 0], 0), ([3], [0, 0], 0), ([17], [0, 0], 0)] := by
+  decide
+
 /-- **Block sparsity of all four constructions**: whenever the optimized or the explicit, spinless or spin-orbital
 constructor returns, all tensors are block sparse under `qd` / `qD`. -/
 theorem molecular_mpo_block_sparse (c : Consts κ) (tkin : List (List κ)) (vint : List (List (List (List κ)))) :
@@ -68,5 +107,60 @@ theorem molecular_mpo_block_sparse (c : Consts κ) (tkin : List (List κ)) (vint
     (∀ r, spinMolBuildExplicit c tkin vint = .ok r → r.2.Sparse) :=
   ⟨fun _ h => molBuildOpt_sparse h, fun _ h => molBuildExplicit_sparse h,
    fun _ h => spinMolBuildOpt_sparse h, fun _ h => spinMolBuildExplicit_sparse h⟩
+
+/-- **Explicit constructions: node ids are pairwise distinct, for every `L`.**  The ids of the node list handed to the `OpGraph`
+constructor by `generate_graph` are a rearrangement of `0, 1, ..., N - 1` (spinless and spin-orbital node tables). -/
+theorem explicit_ids_distinct (L : Int) :
+    (∃ N : Int, ((MolNodes.init L).nodeList.map (·.nid)).Perm (pyRange 0 N)) ∧ ((MolNodes.init L).nodeList.map (·.nid)).Nodup ∧
+    (∃ N : Int, ((SpinNodes.init L).nodeList.map (·.nid)).Perm (pyRange 0 N)) ∧ ((SpinNodes.init L).nodeList.map (·.nid)).Nodup :=
+  ⟨molNodes_ids L, molNodes_ids_nodup L, spinNodes_ids L, spinNodes_ids_nodup L⟩
+
+/-- non-vacuity: `L = 4` spinless has 28 nodes -/
+example : ((MolNodes.init 4).nodeList.map (·.nid)).length = 28 := by decide
+
+/-- **`generate_graph`, every `L ≥ 1`: the terminal look-ups `identity_l[0]`, `identity_r[L]` are defined and the `OpGraph` constructor
+accepts the node list** (no `ValueError`), for both node tables. -/
+theorem explicit_nodes_accepted (L : Int) (hL : 1 ≤ L) :
+    (∃ t0 t1, dGet (MolNodes.init L).identityL 0 = .ok t0 ∧ dGet (MolNodes.init L).identityR L = .ok t1 ∧
+      Graph.mk' (MolNodes.init L).nodeList ([] : List (Edge κ)) [t0.nid, t1.nid]
+        = .ok ⟨(MolNodes.init L).nodeList.map fun n => (n.nid, n), [], (t0.nid, t1.nid)⟩) ∧
+    (∃ t0 t1, dGet (SpinNodes.init L).identityL 0 = .ok t0 ∧ dGet (SpinNodes.init L).identityR L = .ok t1 ∧
+      Graph.mk' (SpinNodes.init L).nodeList ([] : List (Edge κ)) [t0.nid, t1.nid]
+        = .ok ⟨(SpinNodes.init L).nodeList.map fun n => (n.nid, n), [], (t0.nid, t1.nid)⟩) :=
+  ⟨molNodes_graph_init L hL, spinNodes_graph_init L hL⟩
+
+/-- **Spinless explicit construction, every `L ≥ 4`: all look-ups of `_molecular_hamiltonian_graph_add_term` are defined.**
+On any graph with at least one edge (`max(graph.edges.keys()) = m`), for every hopping term `(i, j)` and every interaction term
+`i < j`, `k < l` the call reduces to `graph.add_connect_edge(OpGraphEdge(m + 1, [n0.nid, n1.nid], [(oid, coeff)]))`: every
+`nodes.get`, `nodes_l[...]`, `nodes_r[...]`, `identity_l[...]`, `identity_r[...]` look-up hits an existing entry and every
+internal assertion holds. -/
+theorem explicit_lookups_defined (L : Int) (hL : 4 ≤ L) (g : Graph κ) (m : Int) (hm : maxInt? (dKeys g.edges) = some m) (coeff : κ) :
+    (∀ i j : Int, 0 ≤ i → i < L → 0 ≤ j → j < L →
+      ∃ (n0 n1 : Node) (oid : Int), molAddTerm g (MolNodes.init L) [(i, mC), (j, mA)] coeff
+        = g.addConnectEdge (Edge.mk' (m + 1) (n0.nid, n1.nid) [(oid, coeff)])) ∧
+    (∀ i j k l : Int, 0 ≤ i → i < j → j < L → 0 ≤ k → k < l → l < L →
+      ∃ (n0 n1 : Node) (oid : Int), molAddTerm g (MolNodes.init L) [(i, mC), (j, mC), (l, mA), (k, mA)] coeff
+        = g.addConnectEdge (Edge.mk' (m + 1) (n0.nid, n1.nid) [(oid, coeff)])) :=
+  ⟨fun i j hi hiL hj hjL => molAddTerm_hop L hL g m hm coeff i j hi hiL hj hjL,
+   fun i j k l hi hij hjL hk hkl hlL => molAddTerm_int L hL g m hm coeff i j k l hi hij hjL hk hkl hlL⟩
+
+/-- non-vacuity: `L = 4`, a graph whose only edge has id 7; the across-the-middle term `a†_0 a_3` becomes the edge with id 8 from
+`a_dag_l[0][2]` (node 9) to `a_ann_r[3][3]` (node 26) carrying the Jordan-Wigner `Z` -/
+example : (molAddTerm (⟨[], [(7, ⟨7, (0, 1), [(0, 1)]⟩)], (0, 1)⟩ : Graph Int) (MolNodes.init 4) [(0, mC), (3, mA)] 5).toOption.map
+    (fun g => g.edges.map fun e => (e.1, e.2.nids, e.2.opics)) = some [(7, (0, 1), [(0, 1)]), (8, (9, 26), [(3, 5)])] := by
+  decide
+
+/-- **Bond-optimized constructions: the compiled graph denotes the sum of the enumerated chains** (`L ≥ 1`; spinless and spin-orbital).
+`coeffIn s w` is the coefficient of the word `w` in the formal sum `s`; the enumeration itself returns well-formed chains
+(`molecular_chains_wf`, `spin_molecular_chains_wf`). -/
+theorem optimized_graph_words {R : Type} [CommRing R] [DecidableEq R] (c : Consts R) (tkin : List (List R))
+    (vint : List (List (List (List R)))) (hL : 1 ≤ (tkin.length : Int)) (w : Word) :
+    (∀ b, molBuildOpt c tkin vint = .ok b →
+      ∃ chains, molChains c tkin vint = .ok chains ∧ (∀ ch ∈ chains, ChainWF (tkin.length : Int) ch) ∧
+        b.graph.denF w = coeffIn (denChainsRaw chains (tkin.length : Int) 0) w) ∧
+    (∀ b, spinMolBuildOpt c tkin vint = .ok b →
+      ∃ chains, spinMolChains c tkin vint = .ok chains ∧ (∀ ch ∈ chains, ChainWF (tkin.length : Int) ch) ∧
+        b.graph.denF w = coeffIn (denChainsRaw chains (tkin.length : Int) 0) w) :=
+  ⟨fun b hb => mol_graph_den c tkin vint b hb hL w, fun b hb => spinMol_graph_den c tkin vint b hb hL w⟩
 
 end Ptn.C07
